@@ -34,7 +34,7 @@ func init() {
 		Doc: "R-LIM-3a = R-ERR-9 restricted to lib/query.(*View).Limit: the WITH TIES index limit-1 is non-negative (LIMIT 0 WITH TIES)",
 		Run: func(c *Ctx) { ruleErr9(c, e19InFuncsOrHelpers(c, "lib/query.(*View).Limit")) }})
 	Register(&Rule{ID: "R-ERR-10", Props: []string{"C07"}, Floor: 1,
-		Doc: "R-LIM-3b = R-ERR-10 restricted to lib/query.(*View).Limit: the PERCENT → row-count conversion never sees NaN/±Inf",
+		Doc: "R-LIM-3b = R-ERR-10 restricted to lib/query.(*View).Limit: the PERCENT → row-count conversion never sees NaN/±Inf or a float whose integral part is not an int",
 		Run: func(c *Ctx) { ruleErr10(c, e19InFuncsOrHelpers(c, "lib/query.(*View).Limit")) }})
 	Register(&Rule{ID: "R-ERR-5", Props: []string{"C19"}, Floor: 5,
 		Doc:      "every integer `/` and `%` of hand-written csvq code whose divisor is not a constant has a divisor whose interval excludes 0 at the division (dominating zero test of the divisor itself, or an invariant of the field/parameter it is loaded from)" + e19BoundsAssumption,
@@ -51,8 +51,9 @@ func init() {
 		Controls: []string{"CtlDecrementedIndex"},
 		Run:      func(c *Ctx) { ruleErr9(c, nil) }})
 	Register(&Rule{ID: "R-ERR-10", Props: []string{"C19"}, Floor: 14,
-		Doc:      "every float → integer conversion of hand-written csvq code has an operand that is neither NaN nor ±Inf: the float interval (with NaN flag) is computed from the operand's expression and the comparisons / math.IsNaN / math.IsInf tests that dominate the conversion; a false ordered comparison does not exclude NaN, a quotient is finite only if its divisor excludes 0" + e19BoundsAssumption,
-		Controls: []string{"CtlNaNToInt", "CtlQuotientToInt"},
+		Doc: "every float → integer conversion of hand-written csvq code has an operand that is neither NaN nor ±Inf and whose integral part is a value of the target type (for int64: -2^63 ≤ f < 2^63 — the upper end is exclusive, float64(MaxInt64) is 2^63): the float interval (with NaN flag) is computed from the operand's expression and the comparisons / math.IsNaN / math.IsInf tests that dominate the conversion; a false ordered comparison does not exclude NaN, a quotient is finite only if its divisor excludes 0. " +
+			"The result of converting a float outside the range is left to the implementation by the language (MinInt64 on amd64): INTEGER(1e19), LIMIT 1e30, FETCH ABSOLUTE 1e30. The range part is not demanded of a finite operand built from sizes only (file sizes, byte positions, lengths, counters, constants — R-ERR-7's notion): it has the magnitude of the data, not one the input chooses; nor of a finite operand whose converted integer is used only as an argument that R-ERR-7 requires to be shown ≥ 0 and bounded (make, Repeat, Grow): the interval engine assumes nothing about the result of an out-of-range conversion, so that obligation covers it" + e19BoundsAssumption,
+		Controls: []string{"CtlNaNToInt", "CtlQuotientToInt", "CtlFloatToIntNoRange", "CtlFloatToIntMaxInclusive", "CtlFloatOfUserCountToInt", "CtlFloatToInt32WideTest"},
 		Run:      func(c *Ctx) { ruleErr10(c, nil) }})
 }
 
@@ -810,6 +811,12 @@ func e19CallersIncrementField(c *Ctx, fn *ssa.Function, n ssa.Value, k int64) (b
 // R-ERR-10
 
 func ruleErr10(c *Ctx, scope func(*ssa.Function) bool) {
+	if scope == nil {
+		start := len(c.Obs)
+		defer func() {
+			c.negControls(start, "okNaNExcluded", "okQuotientGuarded", "okFloatToIntRange:", "okFloatToIntRangeConj", "okFloatOfSizesToInt")
+		}()
+	}
 	e := e19NewBounds(c)
 	seq := e19SeqKey{}
 	for _, fn := range e19HandWritten(c, scope) {
@@ -823,8 +830,23 @@ func ruleErr10(c *Ctx, scope func(*ssa.Function) bool) {
 				c.Touch(fn)
 				key := seq.key(c, fn, fmt.Sprintf("%s(%s)", types.TypeString(x.Type(), nil), e19FloatExprLabel(x.X)))
 				a := e.Eval(x.X, x, core.KFloat)
-				if a.Bot || a.Finite() {
-					c.Ok(key, c.Pos(x), "operand ∈ "+e19FmtAV(a))
+				lo, hi, tname := e19IntRange(x.Type())
+				if a.Bot || (a.Finite() && a.Lo >= lo && a.Hi <= hi) {
+					c.Ok(key, c.Pos(x), "operand ∈ "+e19FmtAV(a)+" ⊆ range of "+tname)
+					continue
+				}
+				if site := e19ConfinedByErr7(c, x); a.Finite() && site != nil {
+					// the integer goes nowhere but into an argument whose sign and upper bound
+					// R-ERR-7 decides: the interval engine knows nothing about an out-of-range
+					// conversion (Top), so that obligation stands for this one
+					c.Ok(key, c.Pos(x), "operand ∈ "+e19FmtAV(a)+": finite; the converted integer is used only as an argument that R-ERR-7 requires to be shown ≥ 0 and bounded ("+c.Pos(site)+"), and the interval engine assumes nothing about the result of an out-of-range conversion")
+					continue
+				}
+				if a.Finite() && e.SizeDerived(x.X, x) {
+					// finite, and no leaf of the expression is a value the input chooses
+					// (file sizes, byte positions, lengths, counters, constants): its magnitude
+					// is the magnitude of the data, covered by the stated assumption
+					c.Ok(key, c.Pos(x), "operand ∈ "+e19FmtAV(a)+": finite and built from sizes, positions and constants only (no input-chosen magnitude)")
 					continue
 				}
 				var bad []string
@@ -833,14 +855,61 @@ func ruleErr10(c *Ctx, scope func(*ssa.Function) bool) {
 				}
 				if math.IsInf(a.Lo, -1) {
 					bad = append(bad, "-Inf")
+				} else if a.Lo < lo {
+					bad = append(bad, "below the smallest "+tname)
 				}
 				if math.IsInf(a.Hi, 1) {
 					bad = append(bad, "+Inf")
+				} else if a.Hi > hi {
+					bad = append(bad, "above the largest "+tname)
 				}
-				c.Bad(key, c.Pos(x), fmt.Sprintf("the operand %s can be %s here (%s): the tests that dominate the conversion do not exclude it (a false `<`/`>` comparison is also false for NaN; x/0 is ±Inf) — the converted integer is garbage (MinInt64 on amd64) and reaches index/size arithmetic", e19FloatExprLabel(x.X), strings.Join(bad, "/"), e19FmtAV(a)))
+				c.Bad(key, c.Pos(x), fmt.Sprintf("the operand %s can be %s here (%s): the tests that dominate the conversion do not exclude it (a false `<`/`>` comparison is also false for NaN; x/0 is ±Inf; float64(MaxInt64) is 2^63, one above the largest int64) — Go leaves the result of converting a float outside the target's range to the implementation: the converted integer is garbage (MinInt64 on amd64) and reaches index/size arithmetic or is shown to the user as the value", e19FloatExprLabel(x.X), strings.Join(bad, "/"), e19FmtAV(a)))
 			}
 		}
 	}
+}
+
+// e19ConfinedByErr7: every use of the converted integer v is an argument for which
+// ruleErr7 emits a "≥ 0" and a "bounded" obligation (make len/cap, Repeat count,
+// Grow) — returns one such site, or nil.
+func e19ConfinedByErr7(c *Ctx, v ssa.Value) ssa.Instruction {
+	refs := v.Referrers()
+	if refs == nil || len(*refs) == 0 {
+		return nil
+	}
+	var site ssa.Instruction
+	for _, r := range *refs {
+		ok := false
+		switch u := r.(type) {
+		case *ssa.DebugRef:
+			continue
+		case *ssa.MakeSlice:
+			ok = u.Len == v || u.Cap == v
+		case *ssa.MakeChan:
+			ok = u.Size == v
+		case ssa.CallInstruction:
+			n := c.P.CalleeName(u)
+			args := u.Common().Args
+			switch {
+			case n == "strings.Repeat" || n == "bytes.Repeat":
+				ok = len(args) == 2 && args[1] == v && args[0] != v
+			default:
+				if sz, is := e19OutputSizeArgs[n]; is && sz.lo == 0 && sz.arg < len(args) && args[sz.arg] == v {
+					ok = true
+					for i, a := range args {
+						if i != sz.arg && a == v {
+							ok = false
+						}
+					}
+				}
+			}
+		}
+		if !ok {
+			return nil
+		}
+		site = r
+	}
+	return site
 }
 
 // e19FloatExprLabel names the outermost operation of a float expression.
@@ -865,6 +934,33 @@ func e19FloatExprLabel(v ssa.Value) string {
 		}
 	}
 	return e19ExprLabel(v)
+}
+
+// e19IntRange: the closed interval of float64 values whose truncation is a value
+// of the integer type t (int and uint are 64 bits wide on every platform csvq is
+// released for; a narrower int only makes the clause stricter). The upper end is
+// the largest float64 BELOW 2^n: 2^63 itself — which is what float64(MaxInt64)
+// rounds to — is outside int64.
+func e19IntRange(t types.Type) (lo, hi float64, name string) {
+	b := t.Underlying().(*types.Basic)
+	below := func(x float64) float64 { return math.Nextafter(x, math.Inf(-1)) }
+	switch b.Kind() {
+	case types.Int8:
+		return -128, 127, "int8"
+	case types.Int16:
+		return -32768, 32767, "int16"
+	case types.Int32:
+		return -(1 << 31), 1<<31 - 1, "int32"
+	case types.Uint8:
+		return 0, 255, "uint8"
+	case types.Uint16:
+		return 0, 65535, "uint16"
+	case types.Uint32:
+		return 0, 1<<32 - 1, "uint32"
+	case types.Uint, types.Uint64, types.Uintptr:
+		return 0, below(1 << 64), "uint64"
+	}
+	return -(1 << 63), below(1 << 63), "int64"
 }
 
 func e19IsIntType(t types.Type) bool {
